@@ -106,9 +106,16 @@ def oracle(T: Transition) -> None:
     other = D - R - P - set(cand)
     if other:
         rep.add("info_gc_deleted_non_data_non_manifest_files", len(other))
+        rep.cov.setdefault("info_other_deleted_classes", {})
+        for f in other:
+            c = file_class(f)
+            rep.cov["info_other_deleted_classes"][c] = rep.cov["info_other_deleted_classes"].get(c, 0) + 1
     young_deleted = [f for f in D if f in cand and age[f] <= grace and f not in R and f not in P]
     if young_deleted:
         rep.add("info_orphans_not_older_than_grace_deleted", len(young_deleted))  # the statement is silent
+        if len(rep.notes) < 3:
+            rep.notes.append(f"young orphan deleted: variant {T.v['name']} history {T.hist} files "
+                             f"{[(f, age[f]) for f in young_deleted[:3]]}")
     # ---- liveness ---------------------------------------------------------
     st = T.out["status"]
     if st == "aborted":
@@ -143,7 +150,7 @@ C05_ALPHABET = tuple(FULL_ALPHABET)
 
 def spellings(tier: str) -> List[Dict[str, Any]]:
     q = tier == "quick"
-    d_main = 4 if q else 5
+    d_main = 5 if q else 6
     d_sp = 3 if q else 4
     d_s3 = 3
     alpha_sp = tuple(o for o in C05_ALPHABET if o not in (("commit_tx", 1), ("rollback_tx", 1)))
@@ -201,13 +208,15 @@ def run(tier: str, seed: int) -> Report:
     rep.cov["alphabet"] = [hist.op_label(o) for o in C05_ALPHABET]
     if tier == "thorough":
         main = V[0]
-        d = hist.differential(PROP, tier, seed, main, 3, "checks.c05", res["visited"][main["name"]],
+        d = hist.differential(PROP, tier, seed, main, 4, "checks.c05", res["visited"][main["name"]],
                               set(rep.violations), rep)
-        rep.cov["differential"] = {"variant": main["name"], "depth": 3, "histories": d["nodes"], "canonical_states": d["states"]}
+        rep.cov["differential"] = {"variant": main["name"], "depth": 4, "histories": d["nodes"], "canonical_states": d["states"]}
+    rep.cov["states_counting"] = "distinct canonical states, summed over variants (each variant is its own search)"
     rep.cov["exhaustive"] = not rep.caps
     rep.cov["rule"] = (
         "per location spelling: BFS over all histories of <= depth symbols of the alphabet (guards: a symbol is enabled "
         "when its target exists), every transition = real API call on the real table re-opened through that spelling; "
+        "the successor of a transition that violated a state property or left the table unreadable is not expanded (counted as states_pruned_after_violation / states_broken_not_expanded). "
         "states deduplicated by the canonical form of dsmc/hist.py. evaluations = gc transitions judged. A gc transition "
         "is non-trivial when some data/manifest file on disk is older than the grace used or a live transaction has "
         "registered files; distinct = (variant, canonical pre-state, grace)")
